@@ -41,7 +41,9 @@ def foreign_job(rng, deep=False):
     blobs.append({"seed": len(blobs) + 1, "len": 321})
     files = [e["path"] for e in entries if e["path"]]
     spell = rng.sample(files, min(len(files), 3))
-    after = [{"op": "mkdir", "name": "/zz-new", "perm": 0o755}, {"op": "createfile", "name": "/zz-new/x", "blob": len(blobs) - 1}]
+    after = [{"op": "mkdir", "name": "/zz-new", "perm": 0o755}, {"op": "createfile", "name": "/zz-new/x", "blob": len(blobs) - 1},
+             {"op": "mkdirall", "name": rng.choice(["/zz-new/m/n", "zz-new/m/n", "./zz-new/m/n"]), "perm": 0o755}, {"op": "mkdirall", "name": "/zz-new", "perm": 0o755},
+             {"op": "createfile", "name": "/zz-new/m/n/deep", "blob": len(blobs) - 1}]
     fl = [e["path"] for e in entries if not e["dir"]]
     if fl:
         after.append({"op": "rename", "name": "/" + fl[0], "name2": "/zz-new/moved"})
@@ -125,7 +127,11 @@ def apply_after(exp, job):
     bl = job["blobs"]
     for c in job["after"]:
         n = oracles.absname(c["name"])
-        if c["op"] == "mkdir":
+        if c["op"] == "mkdirall":
+            parts = [x for x in n.split("/") if x]
+            for i in range(1, len(parts) + 1):
+                exp.setdefault("/" + "/".join(parts[:i]), ("d", 0))
+        elif c["op"] == "mkdir":
             exp[n] = ("d", 0)
         elif c["op"] == "createfile":
             b = bl[c["blob"]]
